@@ -128,7 +128,7 @@ func genIntRules(r *vh.Rand, k IKind) (*IntRules, string) {
 			class = "inverted-bounds"
 		}
 	}
-	if class == "" && k != I64 && r.Chance(4) { // a bound outside the format's range
+	if class == "" && k != I64 && r.Chance(8) { // a bound outside the format's range
 		class = "bound-out-of-range"
 		out := int64(5000000000)
 		if k == U64 {
